@@ -131,7 +131,7 @@ def gen_class_job(ch, jid, label):
     src = "\n".join(lines) + "\n"
     truth = {"attrs": attrs, "init": [p["name"] for p in params], "documented": documented, "doc_attrs": doc_attrs,
              "params": {p["name"]: {"typ": p["typ"], "default": p["default"], "doc": p["doc"]} for p in params}, "attr_info": attr_info}
-    return {"id": jid, "kind": "parse_class_init", "src": src, "name": cname, "truth": truth}
+    return {"id": jid, "kind": "parse_class_init", "src": src, "name": cname, "truth": truth, "inmem": ch.chance(label + ".inmem", 0.15)}
 
 
 def gen_hop_job(ch, jid, label):
@@ -498,6 +498,8 @@ class Replica(object):
             ir = ns.parse.class_(tree.body[0], merge_inner_function="__init__")
             if self.task["prop"] == "C07" and occ == 0:
                 self.c07_class(job, ir)
+                if job.get("inmem"):
+                    self.c07_class_inmem(job)
             return canon_ir(ir)
         if k == "parse_docstring":
             ir = ns.parse.docstring(job["text"])
@@ -577,6 +579,40 @@ class Replica(object):
             if clause.startswith("4-doctype"):
                 continue
             self.add_violation("C07", job, clause, detail, dict(extra, route="inmem"))
+
+    def c07_class_inmem(self, job):
+        """The same class as an object in memory: parse.class_(<type>, merge_inner_function='__init__')."""
+        import importlib.util
+
+        path = os.path.join(self.tmpdir(), "dtcls_%d.py" % job["id"])
+        with open(path, "wt") as f:
+            f.write(PRELUDE + job["src"])
+        spec = importlib.util.spec_from_file_location("dtcls_%d" % job["id"], path)
+        mod = importlib.util.module_from_spec(spec)
+        sys.modules["dtcls_%d" % job["id"]] = mod  # inspect.getsource of a class looks its module up there
+        spec.loader.exec_module(mod)
+        cls = getattr(mod, job["name"])
+        try:
+            ir = self.ns.parse.class_(cls, merge_inner_function="__init__")
+        except Exception as e:
+            self.add_violation("C07", job, "0-raises", "parse.class_(<class object>, merge_inner_function='__init__') raised %s: %s" % (type(e).__name__, str(e)[:120]),
+                               {"route": "inmem-class", "exc": type(e).__name__})
+            return
+        t = job["truth"]
+        init_names, _ = _sig_of(cls.__init__)
+        attrs = list(t["attrs"])
+        want = attrs + [n for n in init_names if n not in attrs]
+        got = [n for n, _ in _params_of(ir)]
+        if sorted(got) != sorted(want):
+            missing = [n for n in want if n not in got]
+            dup = sorted({n for n in got if got.count(n) > 1})
+            self.add_violation("C07", job, "1-names", "in-memory class+__init__ merge: parsed %r, expected the union %r" % (got, want),
+                               {"what": "missing" if missing else ("duplicate" if dup else "extra"), "route": "inmem-class"})
+            return
+        gi = [n for n in got if n in init_names and n not in attrs]
+        if gi != [n for n in init_names if n not in attrs]:
+            self.add_violation("C07", job, "2-order", "in-memory: __init__ parameters parsed in order %r, source order %r" % (gi, [n for n in init_names if n not in attrs]),
+                               {"which": "init", "route": "inmem-class", "documented": _docmode(t)})
 
     def c07_class(self, job, ir):
         t = job["truth"]
@@ -882,6 +918,15 @@ def run_check(prop, tier):
             j = jobs[len(samples)]
             samples.append({"corpus_seed": seed, "job": {k: v for k, v in j.items() if k != "truth"}, "replica0": {k: replicas[0][k] for k in ("hashseed", "line_length")},
                             "schedule_head": replicas[1]["schedule"][:12] if len(replicas) > 1 else []})
+    # stored regressions / findings of this property (re-executed in every run)
+    for t in stored_replays(prop):
+        rc, sig_seen, _res = execute_replay_doc(t["doc"])
+        if sig_seen:
+            k = core.known_for(t["doc"]["expect_sig"], known)
+            if k is None:
+                new_sigs.setdefault(core.digest(t["doc"]["expect_sig"]), {"stored": t})
+            else:
+                known_hit.setdefault(k["id"], [k, 0])[1] += 1
     for k in known:
         if k["property"] != prop:
             continue
@@ -889,13 +934,6 @@ def run_check(prop, tier):
             lines.append("KNOWN-FINDING: property=%s %s [%s, seen %d times in this run]" % (prop, k["text"], k["id"], known_hit[k["id"]][1]))
         else:
             lines.append("NOTE: open finding %s of %s did not occur in this run: %s" % (k["id"], prop, k["text"][:100]))
-    # stored regressions / findings of this property
-    for t in stored_replays(prop):
-        rc, sig_seen, _res = execute_replay_doc(t["doc"])
-        if sig_seen:
-            k = core.known_for(t["doc"]["expect_sig"], known)
-            if k is None:
-                new_sigs.setdefault(core.digest(t["doc"]["expect_sig"]), {"stored": t})
     max_report = int(os.environ.get("DTSIM_MAX_REPORT", "6"))
     for sd, item in sorted(new_sigs.items())[:max_report]:
         if "stored" in item:
